@@ -262,6 +262,13 @@ def search(ctx):
             cases.append({"manifests": [("requirements.txt", f"requests\n{sp}\n")], "codemod": cid, "pkg": pkg})
             cases.append({"manifests": [("pyproject.toml", f'[project]\nname = "x"\nversion = "0.1"\ndependencies = [\n  "{sp}",\n  "requests",\n]\n')], "codemod": cid, "pkg": pkg})
             cases.append({"manifests": [("setup.cfg", f"[options]\ninstall_requires =\n    {sp}\n    requests\n")], "codemod": cid, "pkg": pkg})
+    # two or three manifests that could each take the package: exactly one of them gets it
+    M = e2e.MANIFESTS
+    for ks in [("pyproject.toml", "requirements.txt"), ("requirements.txt", "setup.cfg"), ("setup.py", "requirements.txt"), ("pyproject.toml", "setup.py", "setup.cfg"),
+               ("pyproject.toml", "requirements.txt", "setup.cfg")]:
+        cases.append({"manifests": [(k, M[k][0]) for k in ks]})
+    # a pyproject.toml that cannot take it (no dependency table) in front of manifests that can
+    cases.append({"manifests": [("pyproject.toml", '[build-system]\nrequires = ["setuptools"]\n'), ("requirements.txt", "requests\n"), ("setup.cfg", "[options]\ninstall_requires =\n    requests\n")]})
     cases.append({"manifests": []})
     # a manifest the parser accepts (chardet) but that is not UTF-8: it cannot be updated and must be left alone
     cases.append({"manifests": [("requirements.txt", "requests\nflask\n".encode("utf-16"))], "expect_untouched": True})
